@@ -79,6 +79,22 @@ PROPS = {
             dict(test="FuzzC17Decode", kind="fuzz", tiers=[T], fuzztime={T: 60}),
         ],
     ),
+    "C18": dict(
+        pkg="c18", level="exploration",
+        technique="stateful property-based testing (rapid state machines) against an in-memory map model, with reopen",
+        level_text=("Generated histories of Set/Get/Delete/KeysWithSuffix/reopen on the file storage and of SaveEntity/EntityWithName/DeleteEntity/Entities/reopen on the pairing database, "
+                    "each on a fresh directory, compared after every step (and completely after every reopen and at the end) with an in-memory map."),
+        level_note="Trusted: the map model. Storage keys are file-name-safe strings without ':' and '/', as hc's own callers use; values up to 4096 bytes; entity names up to 100 arbitrary bytes.",
+        rule=("rapid state machines (about 30 actions per history) over a pool of 11 keys plus fresh ones, values 0..4096 bytes, suffixes drawn from substrings of live keys and hc's own; database names from special strings, "
+              "raw bytes, UTF-8 strings and id-like strings. Non-trivial: storage history with a Get after an overwrite by a shorter/empty value or a reopen after a delete; database history with an overwrite or a reopen after a delete. Distinct by history."),
+        assumptions=["one process uses a storage directory at a time"],
+        essential_classes=["storage:set:shorter", "storage:set:longer", "storage:set:empty", "storage:reopen-after-delete", "storage:get-after-shorter-overwrite", "storage:keys", "db:save:overwrite", "db:reopen-after-delete", "db:list", "regress"],
+        jobs=[
+            dict(test="TestC18Regress", kind="plain"),
+            dict(test="TestC18Storage", kind="rapid", checks={Q: 300, T: 12000}, shards=8),
+            dict(test="TestC18Database", kind="rapid", checks={Q: 300, T: 12000}, shards=8),
+        ],
+    ),
 }
 
 # reasons for properties not claimed yet (kept current while the framework is being built)
